@@ -75,7 +75,7 @@ theorem C11_deleted_stays_deleted (rights : Rights) (ops1 ops2 : List Op) (p i :
 
 /-! ### the code with #18 repaired: any model `d` that consults the deletion log, every other switch free -/
 
-/-- the model of the code with the repair of #18 (`findings/C11-ingest-consults-deletion-log.patch`) -/
+/-- the model of the code with the repair of #18 (`findings/C11-ingest-consults-deletion-log-v2.patch`) -/
 def Defects.repaired18 : Defects := { Defects.asImplemented with ingestIgnoresTombstones := false }
 
 /-- **C11 (one pull, whatever the source holds).** For every model that consults the deletion log — the code with
